@@ -35,12 +35,40 @@ func exact(s string) []byte {
 	return b[:len(b):len(b)]
 }
 
+// tagMap builds the tag map: "t" is an entry that is true, "-t" an entry that
+// is present and false (which means the same as no entry).
 func tagMap(tags []string) map[string]bool {
 	m := map[string]bool{}
 	for _, t := range tags {
+		if strings.HasPrefix(t, "-") {
+			m[t[1:]] = false
+			continue
+		}
 		m[t] = true
 	}
 	return m
+}
+
+// explicitFalse returns, for every subset of the universe, the tag list that
+// names the members as true and every other tag of the universe as false.
+func explicitFalse(universe []string) [][]string {
+	var out [][]string
+	for _, s := range subsets(universe) {
+		in := map[string]bool{}
+		for _, t := range s {
+			in[t] = true
+		}
+		var l []string
+		for _, t := range universe {
+			if in[t] {
+				l = append(l, t)
+			} else {
+				l = append(l, "-"+t)
+			}
+		}
+		out = append(out, l)
+	}
+	return out
 }
 
 // ---------- reference from the statement ----------
@@ -529,6 +557,8 @@ func main() {
 		tagSets = append(tagSets, append([]string{"*"}, s...))
 	}
 	tagSets = append(tagSets, []string{"ignore"}, []string{"*", "ignore"}, []string{"linux", "ignore", "foo"})
+	tagSets = append(tagSets, explicitFalse([]string{"linux", "android", "foo"})...)
+	tagSets = append(tagSets, []string{"-*", "linux"}, []string{"-ignore", "foo"})
 	nw := r.Workers()
 	var wg sync.WaitGroup
 	var nHeaders int64
@@ -599,6 +629,8 @@ func main() {
 	names = append(names, ".go", "_.go", "linux.go", "_linux.go", "x.linux.go", "x_linux.amd64.go", "x-linux.go", "x_Linux.go", "x_linux_amd64_test_test.go", "x_test_linux.go")
 	mfTags := subsets([]string{"linux", "android", "windows", "amd64", "arm"})
 	mfTags = append(mfTags, []string{"*"}, []string{"*", "linux"}, []string{"darwin", "wasm"})
+	mfTags = append(mfTags, explicitFalse([]string{"linux", "android", "amd64"})...)
+	mfTags = append(mfTags, []string{"-*", "linux"})
 	for w := 0; w < nw; w++ {
 		wg.Add(1)
 		go func(w int) {
@@ -631,7 +663,7 @@ func main() {
 	r.Set("known_os_missing_vs_toolchain_info_only", drift)
 	r.Set("evaluations", st.sbEvals+st.mfEvals)
 	r.Set("distinct_nontrivial", st.sbFalse+st.mfFalse)
-	r.Set("rule", "ShouldBuild: every header of <= 2 lines over the full line alphabet and <= 3 (thorough 4) lines over the reduced one x 7 terminators x LF/CRLF x every tag set; MatchFile: every name of <= 4 segments over 11 tokens x 4 extensions x every tag set. non-trivial = the reference verdict is false (a constraint actually excludes the file), counted")
+	r.Set("rule", "ShouldBuild: every header of <= 2 lines over the full line alphabet and <= 3 (thorough 4) lines over the reduced one x 7 terminators x LF/CRLF x every tag set; MatchFile: every name of <= 4 segments over 11 tokens x 4 extensions x every tag set (entries that are true, and sets that also hold entries that are explicitly false). non-trivial = the reference verdict is false (a constraint actually excludes the file), counted")
 	r.Set("shouldbuild_cases", st.sbEvals)
 	r.Set("shouldbuild_headers", nHeaders)
 	r.Set("shouldbuild_cross_checked_with_go_build", st.sbCross)
